@@ -59,6 +59,8 @@ type fAlertObs struct {
 	EndsAt   time.Duration // relative to epoch; 0 = none
 }
 
+const fLatency = time.Millisecond
+
 // fAttempt is one call of a Notifier.
 type fAttempt struct {
 	At        time.Duration // virtual send time since epoch
@@ -98,6 +100,9 @@ func (a fAttempt) String() string {
 	st := "ok"
 	if !a.OK {
 		st = "FAIL(" + a.Mode.String() + ")"
+	}
+	if a.Done-a.At > fLatency {
+		st += fmt.Sprintf(" (answered %v)", a.Done)
 	}
 	return fmt.Sprintf("%v %s/%s %s [%s] %s", a.At, a.Receiver, a.Integ, a.GroupKey, strings.Join(l, ","), st)
 }
@@ -186,6 +191,9 @@ func (n *fNotifier) Notify(ctx context.Context, alerts ...*alert.Alert) (bool, e
 	var err error
 	switch mode {
 	case mOK:
+		// A delivery takes time. Without this an instant answer lets the flush that follows a late one log
+		// at the very same virtual instant, a tie the real nanosecond clock never produces (DESIGN 10).
+		time.Sleep(fLatency)
 	case mRecoverable:
 		retry, err = true, fmt.Errorf("scripted recoverable failure")
 	case mUnrecoverable:
